@@ -22,7 +22,7 @@ NoteFrames(qq, frames, i, fd) ==
   IF i > Len(frames) THEN qq
   ELSE LET f == frames[i]
            old == IF f.qid \in DOMAIN qq THEN qq[f.qid].ntx ELSE 0
-           rec == [t |-> f.t, lname |-> f.lname, name |-> f.name, qt |-> f.qt, fd |-> fd, tcp |-> tfd[fd].tcp, ntx |-> old + 1]
+           rec == [t |-> f.t, lname |-> f.lname, name |-> f.name, qt |-> f.qt, qc |-> f.qc, fd |-> fd, tcp |-> tfd[fd].tcp, ntx |-> old + 1]
        IN NoteFrames(IF f.qid \in DOMAIN qq THEN [qq EXCEPT ![f.qid] = rec] ELSE qq @@ (f.qid :> rec), frames, i + 1, fd)
 
 BadFrame(frames) == \E i \in 1..Len(frames) : frames[i].bad = 1
